@@ -29,6 +29,7 @@ def structure(P, es, nseg, rad):
 
 def cases(tier, seed):
     yield from extras(tier, seed)
+    yield from fixed_cases()
     D = 3 if tier == 'quick' else 4
     for ground, special in ((False, False), (True, False), (False, True), (True, True)):
         P, f, lam = geom.lattice(seed, ground=ground, special=special)
@@ -194,6 +195,14 @@ def eval_extra(c):
                 outcome='extra', note=dict(worst=wd))
 
 
+def fixed_cases():
+    """seed-independent inputs kept as known findings"""
+    P, f, lam = geom.lattice(0, ground=False)
+    pts = [list(map(float, p)) for p in P]
+    st = [dict(a=1, b=3, n=2, r=2e-4 * lam), dict(a=2, b=3, n=4, r=2e-4 * lam), dict(a=3, b=4, n=3, r=3e-5 * lam)]
+    yield dict(env='free', f=f, lam=lam, pts=pts, st=st, fixed=True)
+
+
 def rep_case(c, order=None, flips=None, tags=None, split=None):
     """build a case dict for a description of structure c['st']"""
     pts = [np.array(p) for p in c['pts']]
@@ -308,9 +317,13 @@ def evaluate(c):
         return dict(viol=[], skipped='cond>1e5', evals=1)
     o0 = obs.observe(m0, zen, AZI, nfp)
     viol, worst, ndesc = [], 0.0, 0
+    nskip = 0
     wdesc = None
     for d in descriptions(c):
         cs = rep_case(c, d.get('order'), d.get('flips'), d.get('tags'), d.get('split'))
+        if 'split' in d and not c.get('fixed') and geom.domain(cs, c['lam'], ground=ground):
+            nskip += 1          # the split description itself leaves the sub-domain (a short piece next to a junction)
+            continue
         cs['sources'], cs['loads'] = srcs, loads
         m = obs.solve(geom.build(cs))
         o = obs.observe(m, zen, AZI, nfp)
@@ -325,4 +338,5 @@ def evaluate(c):
     und = sorted((min(e['a'], e['b']), max(e['a'], e['b']), e['n'], round(e['r'], 9)) for e in c['st'])
     return dict(viol=viol[:6], canon='%s|%s' % (c['env'], und), nontriv=geom.junction_degree(rep) >= 2 or ground,
                 trans=ndesc, traces=ndesc, evals=ndesc + 1, dev=worst * tol,
-                outcome='k=%d,nsrc=%d' % (geom.junction_degree(rep), len(srcs)), note=dict(cond=cond, worst=wdesc))
+                outcome='k=%d,nsrc=%d' % (geom.junction_degree(rep), len(srcs)), note=dict(cond=cond, worst=wdesc),
+                skips={'split-description-out-of-domain': nskip} if nskip else None)
